@@ -53,8 +53,15 @@ def mix_seed(*parts) -> int:
 
 
 def key_matches(key: str, patterns) -> bool:
+    """Patterns are exact keys, fnmatch patterns, or `superset:<kind>|a,b,c` which matches a key
+    `<kind>|<comma separated token set>` whose token set contains {a,b,c}."""
     for p in patterns:
-        if key == p or fnmatch.fnmatchcase(key, p):
+        if p.startswith("superset:"):
+            pk, _, ptoks = p[len("superset:"):].partition("|")
+            kk, _, ktoks = key.partition("|")
+            if pk == kk and set(t for t in ptoks.split(",") if t) <= set(ktoks.split(",")):
+                return True
+        elif key == p or fnmatch.fnmatchcase(key, p):
             return True
     return False
 
